@@ -341,6 +341,7 @@ pub fn cases(seed: u64, tier: Tier) -> Cases {
             }
         }
     }
+    crate::ops::c02::c05_generated(&mut cs, &mut rng, tier);
     cs
 }
 
